@@ -30,7 +30,7 @@ var c02BadTargets = []struct{ arg, class string }{
 
 func runC02(t *testing.T, c simrt.Chooser, o Opts) *Out {
 	p := picker{c}
-	variant := []string{"scan", "scan", "scan", "bad-target", "bad-target", "mapped-entries", "long-exclude-line", "exclude-read-fault"}[p.n("variant", 8)]
+	variant := []string{"scan", "scan", "scan", "bad-target", "bad-target", "mapped-entries", "long-exclude-line", "exclude-read-fault", "huge-cancelled"}[p.n("variant", 9)]
 	if o.Index < len(c02BadTargets)*3 {
 		variant = "bad-target"
 	}
@@ -87,13 +87,47 @@ func runC02(t *testing.T, c simrt.Chooser, o Opts) *Out {
 		if len(s.Exclude) == 0 {
 			s.Exclude = genExclude(p, s)
 		}
+	case "huge-cancelled":
+		// a range far too large to scan completely (/1 .. /14), interrupted by Ctrl-C after some
+		// hundred probes: what was sent must lie inside the range, outside the exclusions, and no
+		// (address, port) may have been probed twice - the iteration arithmetic for wide ranges is
+		// exercised without paying for the whole range
+		s.Mode, s.Entries, s.FromStdin = "subnet", nil, false
+		if s.Kind == "arp" {
+			s.Cmd, s.Kind = []string{"icmp"}, "icmp"
+			s.Ports = nil
+		}
+		if !s.portless() {
+			pt := 1 + p.n("hport", 65535)
+			s.Ports = []portRange{{pt, pt + p.n("hportw", 2)}}
+		}
+		bits := 1 + p.n("hugebits", 14)
+		if p.pct("slash0", 10) {
+			bits = 0
+		}
+		base := uint32(p.n("hugebase", 1<<30)) << 2
+		s.Subnet = mkCIDR(base, bits)
+		s.SubnetArg = s.Subnet.String()
+		s.VPN, s.GwMAC, s.CacheGw = false, gwMAC, false
+		if s.app() {
+			s.Workers = 7
+		}
+		s.Exclude = nil
+		if p.bool("hugeexcl") {
+			// exclusions that really bite: halves / quarters of the range
+			s.Exclude = []string{mkCIDR(s.Subnet.Base, min(32, bits+1+p.n("hexb", 2))).String(), "# big holes", mkCIDR(s.Subnet.Base+uint32(1)<<(31-min(31, bits+2)), min(32, bits+3)).String()}
+		}
 	}
 	w := s.world()
+	if variant == "huge-cancelled" {
+		w.SigintStep = 2000 + p.n("hugesig", 12000)
+		w.maxSteps = 400_000
+	}
 	w.NumCPU = p.pick("numcpu", 1, 2, 4, 16)
 	w.tcp = refuseAll
 	sc.World = w
 	var want map[probeKey]int
-	if !expectRefusal {
+	if !expectRefusal && variant != "huge-cancelled" {
 		want = s.expected()
 	}
 	switch variant {
@@ -203,6 +237,29 @@ func runC02(t *testing.T, c simrt.Chooser, o Opts) *Out {
 	got, bad := gotProbes(s, cr)
 	if len(bad) > 0 {
 		out.violate("C02.undecodable", sigBase, "%v", firstN(bad, 4))
+	}
+	if variant == "huge-cancelled" {
+		exh := parseCIDRs(cleanExclude(s.Exclude))
+		out.Stats["huge_probes"] += len(got)
+		if len(got) >= 50 {
+			simrtProbe(&cr.Res, "huge-range-sampled")
+		}
+		for k, n := range got {
+			switch {
+			case !s.Subnet.contains(k.IP):
+				out.violate("C02.outside-target", sigBase, "argv %v: probe to %v lies outside %v", w.Argv, k, s.Subnet)
+			case excluded(exh, k.IP):
+				out.violate("C02.excluded-probed", sigBase, "argv %v: probe to %v although excluded by %v", w.Argv, k, cleanExclude(s.Exclude))
+			case n > 1:
+				out.violate("C02.probed-twice", sigBase, "argv %v: %v probed %d times within the first %d probes of one pass", w.Argv, k, n, len(got))
+			case !s.portless() && !inRanges(s.Ports, k.Port):
+				out.violate("C02.outside-target", sigBase+"/port", "argv %v: probe to %v, port not in %v", w.Argv, k, s.Ports)
+			default:
+				continue
+			}
+			break
+		}
+		return out
 	}
 	ex := parseCIDRs(cleanExclude(s.Exclude))
 	var inExcluded, outside, wronglyRemoved []string
